@@ -104,11 +104,20 @@ def replay_file(pid, path, work):
     try:
         with open(path) as fh:
             first = json.loads(fh.readline())
-            mode = "persist" if first.get("ev") == "saved" else first.get("mode", "")
+            mode = "persist" if first.get("ev") == "saved" else "counter" if first.get("ev") in ("counter", "getburst") else first.get("mode", "")
     except Exception:
-        pass
+        first = {}
     if mode == "persist":
         res = validate(work, os.path.abspath(path), "replay", module="PersistTrace", cfg="PersistTrace.cfg")
+    elif mode == "counter":
+        res = validate(work, os.path.abspath(path), "replay", module="CounterTrace", cfg="CounterTrace.cfg")
+    elif mode == "bloom":
+        res = validate(work, os.path.abspath(path), "replay", module="BloomTrace", cfg="BloomTrace.cfg")
+    elif mode == "rbmutex":
+        import rbcheck
+        res = validate(work, os.path.abspath(path), "replay", module="RBMutexTrace", cfg="RBMutexTrace_gen.cfg",
+                       extra_files={"RBMutexTrace_gen.cfg": rbcheck.CFG % first["ns"]})
+        res["viol"] = [[pid, x[1], x[2], x[3]] for x in res["viol"]]
     elif mode == "hybrid":
         res = validate(work, os.path.abspath(path), "replay", module="HybridTrace", cfg="HybridTrace.cfg")
     else:
